@@ -15,7 +15,7 @@
    Times: [ts] is the timestamp of the raft entry (log time) and is the only time a write depends on; [now] is the
    read-side clock (time.Now() in the code), a parameter of every read.
    Stores are association lists; an element key carries the generation (ValueVersion) it was written under.
-   Integer scores only (Z) for sorted sets; the second (score) index of a sorted set is not represented. *)
+   Integer scores only (Z) for sorted sets; member keys and score-index keys are both represented. *)
 From ZV Require Import Common.Bytes Expire.Consts.
 Open Scope Z_scope.
 
@@ -57,10 +57,14 @@ Inductive ty := TK | TH | TS | TZ | TL.
 Definition ty_eqb (a b : ty) : bool :=
   match a, b with TK, TK | TH, TH | TS, TS | TZ, TZ | TL, TL => true | _, _ => false end.
 
-Inductive skey := SB (b : bytes) | SI (i : Z).          (* field / member, or list sequence number *)
+Inductive skey := SB (b : bytes) | SI (i : Z) | SS (sc : Z) (m : bytes).   (* field / member; list sequence number; zset score-index key (score, member) *)
 Inductive eval := EB (b : bytes) | EI (i : Z).         (* hash value, list value, set member (EB []); zset score *)
 Definition sub_eqb (a b : skey) : bool :=
-  match a, b with SB x, SB y => bytes_eqb x y | SI x, SI y => x =? y | _, _ => false end.
+  match a, b with
+  | SB x, SB y => bytes_eqb x y | SI x, SI y => x =? y
+  | SS x m, SS y n => (x =? y) && bytes_eqb m n
+  | _, _ => false
+  end.
 
 Record meta := mkM { m_hdr : hdr; m_a : Z; m_b : Z }.  (* a = size (hash/set/zset) or head seq (list); b = tail seq (list) *)
 
@@ -117,15 +121,20 @@ Section Sort.
     match l with [] => [x] | y :: r => if leb x y then x :: l else y :: ins x r end.
   Definition isort (l : list A) : list A := fold_right ins [] l.
 End Sort.
+Definition skey_rank (a : skey) : Z := match a with SB _ => 0 | SI _ => 1 | SS _ _ => 2 end.
 Definition sub_leb (a b : skey) : bool :=
   match a, b with
-  | SB x, SB y => bytes_leb x y | SI x, SI y => x <=? y | SB _, SI _ => true | SI _, SB _ => false end.
+  | SB x, SB y => bytes_leb x y
+  | SI x, SI y => x <=? y
+  | SS x m, SS y n => if x <? y then true else if y <? x then false else bytes_leb m n
+  | _, _ => skey_rank a <=? skey_rank b
+  end.
 Definition sorted_els (l : list (skey * eval)) : list (skey * eval) := isort (fun a b => sub_leb (fst a) (fst b)) l.
 Definition score_of (e : eval) : Z := match e with EI i => i | EB _ => 0 end.
 Definition zorder (a b : skey * eval) : bool :=
   if score_of (snd a) <? score_of (snd b) then true
   else if score_of (snd b) <? score_of (snd a) then false else sub_leb (fst a) (fst b).
-Definition sub_bytes (sb : skey) : bytes := match sb with SB b => b | SI _ => [] end.
+Definition sub_bytes (sb : skey) : bytes := match sb with SB b => b | SI _ => [] | SS _ m => m end.
 Definition eval_bytes (e : eval) : bytes := match e with EB b => b | EI _ => [] end.
 
 (* ---------- decimal integers (strconv.ParseInt base 10 / AppendInt) ---------- *)
@@ -451,12 +460,34 @@ Definition do_spop p s ts k (n : Z) : store * reply :=
            (fst (coll_rem p s ts TS k ms), RArr ms)
   end.
 
-(* ---------- sorted set (integer scores) ---------- *)
+(* ---------- sorted set (integer scores) ----------
+   A member m with score sc of generation v is stored twice: the member key (SB m) with value sc, and the
+   score-index key (SS sc m).  ZRANGE / ZREMRANGEBY* iterate the score index, ZSCORE / ZADD / ZREM look up the member key.
+   All existence tests read the committed store [s]; the writes go to the batch [st]. *)
 Fixpoint zlast_wins (l : list (Z * bytes)) : list (Z * bytes) :=
   match l with
   | [] => []
   | (sc, m) :: r => if existsb (fun x => bytes_eqb m (snd x)) r then zlast_wins r else (sc, m) :: zlast_wins r
   end.
+(* the score index of one generation, in (score, member) order *)
+Definition zidx (s : store) (k : bytes) (ver : Z) : list (Z * bytes) :=
+  flat_map (fun e => match fst e with SS sc m => [(sc, m)] | _ => [] end) (sorted_els (el_of s TZ k ver)).
+(* zSetItem *)
+Definition zset_item (s : store) (k : bytes) (ver : Z) (st : store) (x : Z * bytes) : store :=
+  let (sc, m) := x in
+  match el_get s TZ k ver (SB m) with
+  | Some e => if score_of e =? sc then st
+              else el_put (el_put (el_del st TZ k ver (SS (score_of e) m)) TZ k ver (SB m) (EI sc)) TZ k ver (SS sc m) (EB [])
+  | None => el_put (el_put st TZ k ver (SB m) (EI sc)) TZ k ver (SS sc m) (EB [])
+  end.
+(* zDelItem: nothing happens when the member key is not stored (a score-index key alone is not a member) *)
+Definition zdel_item (s : store) (k : bytes) (ver : Z) (st : store) (m : bytes) : store :=
+  match el_get s TZ k ver (SB m) with
+  | Some e => el_del (el_del st TZ k ver (SS (score_of e) m)) TZ k ver (SB m)
+  | None => st
+  end.
+Definition has_member (s : store) (k : bytes) (ver : Z) (m : bytes) : bool :=
+  match el_get s TZ k ver (SB m) with Some _ => true | None => false end.
 Definition do_zadd p s ts k sml : store * reply :=
   match sml with
   | [] => (s, RInt 0)
@@ -464,8 +495,8 @@ Definition do_zadd p s ts k sml : store * reply :=
     match coll_prepare p s ts TZ k with
     | (h, ud, _) =>
         let l := zlast_wins sml in
-        let num := length (filter (fun x => match el_get s TZ k (h_ver h) (SB (snd x)) with None => true | Some _ => false end) l) in
-        let s1 := fold_left (fun st x => el_put st TZ k (h_ver h) (SB (snd x)) (EI (fst x))) l s in
+        let num := length (filter (fun x => negb (has_member s k (h_ver h) (snd x))) l) in
+        let s1 := fold_left (zset_item s k (h_ver h)) l s in
         (incr_size s1 TZ k h ud (Z.of_nat num), RInt (Z.of_nat num))
     end
   end.
@@ -473,20 +504,36 @@ Definition do_zincrby p s ts k d m : store * reply :=
   match coll_prepare p s ts TZ k with
   | (h, ud, _) =>
       match el_get s TZ k (h_ver h) (SB m) with
-      | None => (el_put (incr_size s TZ k h ud 1) TZ k (h_ver h) (SB m) (EI d), RInt d)
-      | Some e => (el_put s TZ k (h_ver h) (SB m) (EI (score_of e + d)), RInt (score_of e + d))
+      | None => (el_put (el_put (incr_size s TZ k h ud 1) TZ k (h_ver h) (SS d m) (EB [])) TZ k (h_ver h) (SB m) (EI d), RInt d)
+      | Some e => let n := score_of e + d in
+                  (el_put (el_put (el_del s TZ k (h_ver h) (SS (score_of e) m)) TZ k (h_ver h) (SS n m) (EB [])) TZ k (h_ver h) (SB m) (EI n),
+                   RInt n)
       end
   end.
+Definition do_zrem p s ts k ms : store * reply :=
+  match ms with
+  | [] => (s, RInt 0)
+  | _ =>
+    match coll_header p s ts TZ k with
+    | (h, ud, ex) =>
+        if ex then (s, RInt 0) else
+        let ms' := filter (has_member s k (h_ver h)) (dedup ms) in
+        let s1 := fold_left (zdel_item s k (h_ver h)) ms' s in
+        (incr_size s1 TZ k h ud (- Z.of_nat (length ms')), RInt (Z.of_nat (length ms')))
+    end
+  end.
+(* zRemRangeBytes over a list of score-index entries: zDelItem for each, counted when the member key is stored *)
+Definition zrem_entries (s : store) (k : bytes) (h : hdr) (ud : option (Z * Z)) (ents : list (Z * bytes)) : store * reply :=
+  let hit := filter (fun x => has_member s k (h_ver h) (snd x)) ents in
+  let s1 := fold_left (fun st x => zdel_item s k (h_ver h) st (snd x)) hit s in
+  (incr_size s1 TZ k h ud (- Z.of_nat (length hit)), RInt (Z.of_nat (length hit))).
 (* ZRemRangeByScore -> zRemRange -> zRemRangeBytes(offset 0, count -1) *)
 Definition do_zremrangebyscore p s ts k lo hi : store * reply :=
   match coll_header p s ts TZ k with
   | (h, ud, ex) =>
       if ex then (s, RInt 0) else
       if size_of ud =? 0 then (s, RInt 0) else
-      let ms := map (fun e => sub_bytes (fst e))
-                    (filter (fun e => (lo <=? score_of (snd e)) && (score_of (snd e) <=? hi)) (el_of s TZ k (h_ver h))) in
-      let s1 := fold_left (fun st m => el_del st TZ k (h_ver h) (SB m)) ms s in
-      (incr_size s1 TZ k h ud (- Z.of_nat (length ms)), RInt (Z.of_nat (length ms)))
+      zrem_entries s k h ud (filter (fun x => (lo <=? fst x) && (fst x <=? hi)) (zidx s k (h_ver h)))
   end.
 
 (* ---------- list ---------- *)
@@ -511,7 +558,7 @@ Fixpoint contig (l : list Z) : bool :=
   | [] => true
   end.
 Definition list_seqs (s : store) (k : bytes) (ver : Z) : list Z :=
-  flat_map (fun e => match fst e with SI i => [i] | SB _ => [] end) (sorted_els (el_of s TL k ver)).
+  flat_map (fun e => match fst e with SI i => [i] | _ => [] end) (sorted_els (el_of s TL k ver)).
 Inductive fixop := FNone | FDel | FPut (m : meta).
 Definition scanfix (p : policy) (s : store) (ts : Z) (k : bytes) : fixop :=
   match coll_header p s ts TL k with
@@ -636,11 +683,7 @@ Definition do_zremrangebyrank p s ts k (start stop : Z) : store * reply :=
          else (match p with Compact => meta_del s TZ k | Local => el_del_gen (meta_del s TZ k) TZ k (h_ver h) end, RInt total))
       else if count >? max_batch_num then (s, RErr)
       else if offset <? 0 then (incr_size s TZ k h ud 0, RInt 0)
-      else
-        let ms := map (fun e => sub_bytes (fst e))
-                      (firstn (Z.to_nat count) (skipn (Z.to_nat offset) (isort zorder (el_of s TZ k (h_ver h))))) in
-        let s1 := fold_left (fun st m => el_del st TZ k (h_ver h) (SB m)) ms s in
-        (incr_size s1 TZ k h ud (- Z.of_nat (length ms)), RInt (Z.of_nat (length ms)))
+      else zrem_entries s k h ud (firstn (Z.to_nat count) (skipn (Z.to_nat offset) (zidx s k (h_ver h))))
   end.
 
 (* ---------- one write command ---------- *)
@@ -667,7 +710,7 @@ Definition step (p : policy) (s : store) (ts : Z) (c : cmd) : store * reply :=
   | CSPop k n => do_spop p s ts k n
   | CZAdd k sml => do_zadd p s ts k sml
   | CZIncrBy k d m => do_zincrby p s ts k d m
-  | CZRem k ms => coll_rem p s ts TZ k ms
+  | CZRem k ms => do_zrem p s ts k ms
   | CZRemRangeByScore k lo hi => do_zremrangebyscore p s ts k lo hi
   | CLPush k head vs => do_lpush p s ts k head vs
   | CLPop k head => do_lpop p s ts k head
@@ -697,10 +740,10 @@ Definition read_coll (p : policy) (s : store) (now : Z) (t : ty) (k : bytes) : o
       let dead := not_exist_or_expired ud ex in
       let items := if dead then [] else
                    match t with
-                   | TZ => firstn (Z.to_nat (size_of ud)) (isort zorder (el_of s t k (h_ver h)))   (* zrange 0 -1: count = size *)
+                   | TZ => map (fun x => (SB (snd x), EI (fst x))) (firstn (Z.to_nat (size_of ud)) (zidx s k (h_ver h)))   (* zrange 0 -1 over the score index: count = size *)
                    | TS => firstn (Z.to_nat (size_of ud)) (sorted_els (el_of s t k (h_ver h)))     (* sMembersN(num = size) *)
                    | TL => match list_meta_of ud with
-                           | (hd, tl, _) => filter (fun e => match fst e with SI i => (hd <=? i) && (i <=? tl) | SB _ => false end)
+                           | (hd, tl, _) => filter (fun e => match fst e with SI i => (hd <=? i) && (i <=? tl) | _ => false end)
                                                    (sorted_els (el_of s t k (h_ver h)))
                            end
                    | _ => sorted_els (el_of s t k (h_ver h))
